@@ -82,6 +82,11 @@ CANARIES = [
     ('insert-data-duplicate', 'C07', 'src/node.rs', '                    Ok(i) => leaves[i] = leaf,', '                    Ok(i) => leaves.insert(i, leaf),'),
     ('node-delete-wrong-index', 'C07', 'src/node.rs', '            NodeData::Leaves(leaves) => leaves.remove(index),', '            NodeData::Leaves(leaves) => leaves.remove(0),'),
     ('pagenode-len-node-zero', 'C07', 'src/page_node.rs', '            PageNode::Node(n) => n.borrow().data.len(),', '            PageNode::Node(n) => n.borrow().children.len(),'),
+    ('delete-bucket-free-one-page', 'C05', 'src/bucket.rs', '                freelist.free(page_id, num_pages);', '                freelist.free(page_id, 1);'),
+    ('delete-bucket-free-twice', 'C05', 'src/bucket.rs', '                freelist.free(page_id, num_pages);', '                freelist.free(page_id, num_pages);\n                if num_pages > 1 { freelist.free(page_id, 1); }'),
+    ('delete-marks-dirty-on-error', 'C01', 'src/bucket.rs', '                let current_id = last.id;\n                let index = last.index;\n                self.dirty = true;\n                let node = self.node(current_id, None);\n                let mut node = node.borrow_mut();\n                match node.delete(index) {', '                let current_id = last.id;\n                let index = last.index;\n                let node = self.node(current_id, None);\n                let mut node = node.borrow_mut();\n                match node.delete(index) {'),
+    ('put-leaf-counts-replacements', 'C01', 'src/bucket.rs', '            Some(current)\n        } else {\n            self.meta.next_int += 1;\n            None\n        };', '            self.meta.next_int += 1;\n            Some(current)\n        } else {\n            self.meta.next_int += 1;\n            None\n        };'),
+    ('put-leaf-bumps-before-kind-check', 'C01', 'src/bucket.rs', '            let current = page_node.val(last.index).unwrap();\n            if current.is_kv() != leaf.is_kv() {', '            let current = page_node.val(last.index).unwrap();\n            self.dirty = true;\n            if current.is_kv() != leaf.is_kv() {'),
 ]
 
 
